@@ -581,6 +581,67 @@ func ownedBytes() *core.Family {
 	}
 }
 
+// the bytes a value was decoded FROM belong to the caller too: every decoder of the value
+// types is given a private buffer that is overwritten after the call (core.Scribbled); the
+// decoded value, and a set and a record built around it, still equal a value decoded from an
+// untouched buffer, and render the same.
+func decodeInputsReused() *core.Family {
+	type dec struct {
+		name string
+		run  func(src []byte) (types.Value, error)
+	}
+	decs := []dec{
+		{"EntityUID.UnmarshalCedar", func(b []byte) (types.Value, error) { var e types.EntityUID; err := e.UnmarshalCedar(b); return e, err }},
+		{"EntityUID.UnmarshalBinary", func(b []byte) (types.Value, error) { var e types.EntityUID; err := e.UnmarshalBinary(b); return e, err }},
+		{"EntityUID.UnmarshalJSON", func(b []byte) (types.Value, error) { var e types.EntityUID; err := e.UnmarshalJSON(b); return e, err }},
+		{"types.UnmarshalJSON", func(b []byte) (types.Value, error) {
+			var v types.Value
+			err := types.UnmarshalJSON(b, &v)
+			return v, err
+		}},
+		{"Set.UnmarshalJSON", func(b []byte) (types.Value, error) { var v types.Set; err := v.UnmarshalJSON(b); return v, err }},
+		{"Record.UnmarshalJSON", func(b []byte) (types.Value, error) { var v types.Record; err := v.UnmarshalJSON(b); return v, err }},
+		{"IPAddr.UnmarshalJSON", func(b []byte) (types.Value, error) { var v types.IPAddr; err := v.UnmarshalJSON(b); return v, err }},
+		{"Decimal.UnmarshalJSON", func(b []byte) (types.Value, error) { var v types.Decimal; err := v.UnmarshalJSON(b); return v, err }},
+		{"Datetime.UnmarshalJSON", func(b []byte) (types.Value, error) { var v types.Datetime; err := v.UnmarshalJSON(b); return v, err }},
+		{"Duration.UnmarshalJSON", func(b []byte) (types.Value, error) { var v types.Duration; err := v.UnmarshalJSON(b); return v, err }},
+	}
+	docs := []string{
+		`User::"alice"`, `NS::Sub::Type::"a\"b\u{e9}"`, `A::""`,
+		`{"type":"User","id":"alice"}`, `{"__entity":{"type":"NS::User","id":"al ice"}}`,
+		`"plain string"`, `12345`, `true`, `["a","b",["c"]]`, `{"key one":"v","k2":{"__entity":{"type":"T","id":"i"}},"k3":{"inner key":[1,"s"]}}`,
+		`"10.0.0.0/8"`, `{"__extn":{"fn":"ip","arg":"2001:db8::1"}}`, `"12.3400"`, `{"fn":"decimal","arg":"-0.5"}`, `"2024-02-29T10:00:00.000Z"`, `"1d2h3m4s5ms"`,
+	}
+	return &core.Family{
+		Name: "decode-input-bytes-reused",
+		Desc: fmt.Sprintf("%d decoders of the value types x %d documents: the buffer the value was decoded from is overwritten by the caller afterwards; the value (alone, in a set, in a record) still equals one decoded from an untouched buffer", len(decs), len(docs)),
+		N:    int64(len(decs) * len(docs)),
+		Run: func(t *core.T, i int64) {
+			d := decs[int(i)/len(docs)]
+			doc := docs[int(i)%len(docs)]
+			want, werr := d.run([]byte(doc))
+			if werr != nil {
+				return // not a document of this decoder
+			}
+			var got types.Value
+			if err := core.Scribbled([]byte(doc), func(b []byte) error { var e error; got, e = d.run(b); return e }); err != nil {
+				t.Fail("decode-differs-on-private-buffer:"+d.name, doc, "decodes", err.Error())
+				return
+			}
+			render := func(v types.Value) string {
+				js, _ := json.Marshal(types.NewRecord(types.RecordMap{"k": v, "s": types.NewSet(v, types.Long(1))}))
+				return v.String() + "|" + string(v.MarshalCedar()) + "|" + string(js)
+			}
+			if !got.Equal(want) || !want.Equal(got) || render(got) != render(want) {
+				t.Fail("decoded-value-aliases-input-bytes:"+d.name, doc, render(want), render(got))
+			}
+			t.Nontrivial()
+			t.AddStates(1)
+			t.Sample(d.name + " <- " + doc)
+		},
+	}
+}
+
 func pairFamily(maxLen int) *core.Family {
 	n := len(U)
 	cnt := seqCount(n, maxLen)
@@ -1001,9 +1062,9 @@ func Check() *core.Check {
 		Assumptions: []string{"the reference equality is structural and type-distinguishing (Cedar ==)"},
 		Families: func(tier string) []*core.Family {
 			if tier == "thorough" {
-				return []*core.Family{closureFamily(), recordFamily(), setFamily(6), pairFamily(3), largeFamily(), mapsetFamily(), c13.UsedReceivers(), ownedBytes(), immutability(7)}
+				return []*core.Family{closureFamily(), recordFamily(), setFamily(6), pairFamily(3), largeFamily(), mapsetFamily(), c13.UsedReceivers(), ownedBytes(), decodeInputsReused(), immutability(7)}
 			}
-			return []*core.Family{closureFamily(), recordFamily(), setFamily(5), pairFamily(2), largeFamily(), mapsetFamily(), c13.UsedReceivers(), ownedBytes(), immutability(5)}
+			return []*core.Family{closureFamily(), recordFamily(), setFamily(5), pairFamily(2), largeFamily(), mapsetFamily(), c13.UsedReceivers(), ownedBytes(), decodeInputsReused(), immutability(5)}
 		},
 	}
 }
